@@ -22,6 +22,7 @@ static void load_dir(const char* dir, const char* origin, const uint8_t* dict, s
     while ((e = readdir(d))) { if (e->d_name[0] == '.' || !strcmp(e->d_name, "dictionary")) continue; char path[1024]; snprintf(path, sizeof path, "%s/%s", dir, e->d_name); size_t n; uint8_t* b = slurp(path, &n); if (b && n < (4u << 20)) add_item(b, n, dict, dl, origin); free(b); }
     closedir(d);
 }
+static size_t g_legacyIdx[64]; static size_t g_nLegacy;
 static void build_corpus(void)
 {
     vrng r = vr_make(20250101, 3, 0);       /* corpus is fixed; mutations are seeded */
@@ -48,6 +49,7 @@ static void build_corpus(void)
         starts[ns] = COMPRESSED_SIZE;
         for (int i = 0; i < ns; i++) if (b[starts[i]] >= 0x25) add_item(b + starts[i], starts[i + 1] - starts[i], NULL, 0, b[starts[i]] == 0x28 ? "legacy-blob-v08" : "legacy");
         add_item(b, COMPRESSED_SIZE, NULL, 0, "legacy-all-versions"); }
+    for (size_t i = 0; i < g_nCorpus && g_nLegacy < 64; i++) if (!strcmp(g_corpus[i].origin, "legacy")) g_legacyIdx[g_nLegacy++] = i;
     /* (d) skippable + multi-frame */
     {   uint8_t buf[600]; uint8_t pay[100]; vr_fill(&r, pay, 100); size_t w = ZSTD_writeSkippableFrame(buf, sizeof buf, pay, 100, 3); if (!ZSTD_isError(w)) { add_item(buf, w, NULL, 0, "skippable"); if (g_nCorpus > 2) { uint8_t* cat = (uint8_t*)malloc(w + g_corpus[0].n + g_corpus[1].n); memcpy(cat, g_corpus[0].p, g_corpus[0].n); memcpy(cat + g_corpus[0].n, buf, w); memcpy(cat + g_corpus[0].n + w, g_corpus[1].p, g_corpus[1].n); add_item(cat, w + g_corpus[0].n + g_corpus[1].n, NULL, 0, "multi-frame"); free(cat); } } }
 }
@@ -120,7 +122,16 @@ static void run_case(long idx)
 {
     vrng r = vr_make(V.seed, 103, (uint64_t)idx);
     const item* it = &g_corpus[vr_u64(&r, g_nCorpus)];
+    if (g_nLegacy && vr_chance(&r, 1, 8)) it = &g_corpus[g_legacyIdx[vr_u64(&r, g_nLegacy)]];     /* legacy decoders get a fixed share */
     uint8_t* m; size_t n; g_kind = mutate(&r, it, &m, &n); g_origin = it->origin;
+    if (!strncmp(it->origin, "legacy", 6) && n > 12 && vr_chance(&r, 1, 2)) {
+        /* legacy frame layouts (v0.5-v0.7): descriptor / window byte after the magic, 3-byte block headers (type in the top 2 bits, 19..22-bit size) */
+        switch (vr_u(&r, 4)) {
+        case 0: m[4] = (uint8_t)vr_u(&r, 256); m[5] = (uint8_t)(vr_chance(&r, 1, 2) ? vr_u(&r, 16) : vr_u(&r, 256)); g_kind = "legacy:descriptor/window"; break;
+        case 1: { size_t const o = 5 + vr_u(&r, 6); m[o] = (uint8_t)((vr_u(&r, 3) << 6) | 7); m[o + 1] = 0xFF; m[o + 2] = (uint8_t)(0xF0 | vr_u(&r, 16)); g_kind = "legacy:block-header-max-size"; break; }
+        case 2: { size_t const o = 5 + vr_u(&r, 6); m[o] = (uint8_t)((vr_u(&r, 4) << 6) | vr_u(&r, 8)); m[o + 1] = (uint8_t)vr_u(&r, 256); m[o + 2] = (uint8_t)vr_u(&r, 256); g_kind = "legacy:block-header"; break; }
+        default: { size_t const o = 4 + vr_u64(&r, n - 4); m[o] = (uint8_t)vr_u(&r, 256); g_kind = "legacy:byte"; } }
+    }
     gbuf src = gb_alloc(n, 0); memcpy(src.p, m, n); free(m);           /* exact-size source: any over-read faults */
     /* plausible content size for capacity choices */
     unsigned long long const fcs = ZSTD_getFrameContentSize(it->p, it->n); size_t const guess = (fcs < (1u << 22)) ? (size_t)fcs : (it->n * 8 + 1000 < (1u << 22) ? it->n * 8 + 1000 : (1u << 22));
